@@ -20,7 +20,7 @@ func (s *Sim) Judge(stranded []string) []Finding {
 	add := func(p, sig, f string, a ...interface{}) {
 		fs = append(fs, Finding{p, sig, fmt.Sprintf(f, a...)})
 	}
-	for _, st := range stranded {
+	for _, st := range append(append([]string{}, stranded...), s.Stranded...) {
 		add("C26", "caller-stranded-after-close", "after ForceClose %s can make no step and never returns", st)
 		add("C24", "caller-stranded-after-close", "after ForceClose %s can make no step and never returns", st)
 	}
